@@ -10,7 +10,9 @@ func init() {
 
 // VerifHarness_C03: tainting keeps >= min_nodes untainted; below the minimum
 // nothing is tainted and capacity is restored (untaint first, then cloud).
-// shape: [nodes, pods, failure budget, auto-discovery(0/1), class menu, prior scan (0/1), built by NewController with the cloud limits changing after start-up (0/1)]
+// shape: [nodes, pods, failure budget, auto-discovery(0/1), class menu, prior scan (0/1), built by NewController with the cloud limits changing after start-up (0/1),
+//
+//	every other describe call of the scan under test fails (0/1)]
 func VerifHarness_C03() {
 	N, P, F, auto, menu := verifShape(0), verifShape(1), verifShape(2), verifShape(3), verifShape(4)
 	w := newWorld(F)
@@ -80,10 +82,19 @@ func VerifHarness_C03() {
 			w.setPodCPU(p, verifInt("p"+strconv.Itoa(j)+".cpu", 0, 3*w.cpuPerNode))
 		}
 	}
+	if verifShape(7) == 1 {
+		// flaky cloud: the scan's refresh fails, each rebuild works, each rebuilt provider's refresh
+		// fails again -- the scan still has to run on what the last rebuild read (the limits as they are now)
+		w.AS.FailEveryOtherDescribe()
+	}
 	s := w.snap(g)
 	mark := len(w.J.Calls)
 	_ = w.ctrl.RunOnce()
+	w.AS.DescribeFailOdd = false
 	j := w.summarize(g, mark)
+	if verifShape(7) == 1 && w.builder.Builds >= 2 {
+		verifReach("C03.scan-on-a-twice-rebuilt-provider")
+	}
 
 	// "applies its taint": writes that were accepted (a rejected write leaves the node untainted
 	// and escalator moves on to the next candidate)
